@@ -168,7 +168,7 @@ def parse_rvalue(s):
         inner=s[1:-1].strip()
         if inner.endswith(','): inner=inner[:-1]
         return ('tuple', [parse_operand(x) for x in split_top(inner)] if inner else [])
-    if s.startswith('{closure@'):
+    if s.startswith('{closure@') or s.startswith('{coroutine@'):
         j=s.index('}')
         rest=s[j+1:].strip()
         fields=[]
